@@ -408,6 +408,9 @@ class BaseEMSurvey(ObjectBase, ABC):  # pylint: disable=too-many-public-methods
 
                         if isinstance(prop_group, PropertyGroup):
                             prop_groups.append(prop_group.name)
+                        elif isinstance(value, str):
+                            # Group held by the linked survey entity: keep the shared entry
+                            prop_groups.append(value)
 
                     metadata["EM Dataset"]["Property groups"] = prop_groups
 
